@@ -2,7 +2,8 @@
 From Coq Require Import String ZArith List Bool PrimFloat.
 From NSL Require Import Base.Types Base.Syntax Model.PyNum Model.IR Model.VM Model.PyTree Model.Elab Model.Lower Spec.RefSem
      Harness.RunLib Proofs.OpsAgree Proofs.LowerExprProofs Proofs.ElabExprProofs Proofs.ReturnExprProofs Proofs.CallAgreeProofs
-     Proofs.ReturnExprExample Harness.FragLib.
+     Proofs.ReturnExprExample Harness.FragLib Proofs.LowerStmtProofs Proofs.ElabStmtProofs Proofs.StraightLineProofs Proofs.StraightLineExample
+     Proofs.ForwardProofs Harness.FwdLib Harness.FragLib2 Model.Opt.
 From NSLDyn Require Gen_VM Agree_VM Gen_Shapes.
 Import ListNotations.
 
@@ -80,6 +81,57 @@ Example C01_return_expression_example : forall P,
             exists n, forall fuel', n <= fuel' -> run fuel' P ex_F 0 (call_frame ex_ws (init_regs ex_F)) ex_vs = Done (v_of v) ex_vs.
 Proof. exact ex_conclusion. Qed.
 
+(** PARTIAL (4): straight-line functions.  The body is any sequence of declarations of int / float locals (with or without
+    initialiser) and assignments to int / float locals, parameters and globals, each right-hand side a pure expression as in
+    (3), followed by  return e.  If the front-end model elaborates and the lowering model lowers the function to F, then at
+    every call with numeric arguments and globals of the declared types, whenever the reference semantics runs the body
+    to completion it returns a number v, and the VM model running F returns exactly v and ends in a VM state that agrees
+    with the reference state on every visible name (in particular on every global), for every sufficient fuel.
+    Hypotheses as in (3), plus: declared names differ from parameter and global names (the front end rejects the others,
+    C12).  [straight_in_fragment] decides the static hypotheses (sound by C01_straight_fragment_test_sound) and is
+    evaluated by the check on every generated straight-line function.
+    Missing for the full statement: control flow, calls, aggregates, compound assignment, ++ / --. *)
+Theorem C01_straight_line_functions_partial :
+  forall (M : module) (fn : func) (l : list stmt) (e : expr) (tf : tfunc) (F : ifunc),
+    f_body fn = l ++ [SRet (Some e)] -> forallb ssimple l = true -> spure e = true ->
+    elab_func (genv_of M) (genvl M) fn = EOk tf -> lower_func (m_structs M) (glnames M) tf = LOk F ->
+    forall tl te, tf_body tf = tl ++ [TRet (Some te)] -> length tl = length l ->
+    forallb stok tl = true -> tok te = true ->
+    lits_exact (flat_map tflits (body_exprs tl ++ [te])) -> (forall q, In q (flat_map tflits (body_exprs tl ++ [te])) -> PrimFloat.eqb q q = true) ->
+    Forall (fresh_decl (glnames M) (argnames fn)) l ->
+    forall (P : program) (ws : list rval) (g : RefSem.frame) (vs : vmstate),
+      Forall2 (fun p w => has_ty w (fst p)) (f_args fn) ws ->
+      (forall x, In x (map snd (f_args fn)) -> ~ In x (glnames M)) ->
+      (forall x p, find (fun q => String.eqb (fst q) x) (genvl M) = Some p ->
+         num_ty (snd p) /\ exists w, find (fun q => String.eqb (fst q) x) g = Some (fst p, SV w) /\ has_ty w (snd p) /\ slookup x (globals vs) = Some (v_of w)) ->
+      forall fuel fl st', exec_list M fuel (f_body fn) (call_state fn ws g) = ROk (fl, st') ->
+        exists v vs', fl = OReturn (SV v) /\
+          (exists n, forall fuel', n <= fuel' -> run fuel' P F 0 (call_frame ws (init_regs F)) vs = Done (v_of v) vs') /\
+          exists locals' V' A', Agree (glnames M) (argnames fn) (env_after (fenv M fn) l) st' locals' V' A' vs'.
+Proof. exact straight_line_function_simulation. Qed.
+
+Theorem C01_straight_fragment_test_sound : forall M fn, straight_in_fragment M fn = true ->
+  exists l e tf F tl te,
+    f_body fn = l ++ [SRet (Some e)] /\ forallb ssimple l = true /\ spure e = true /\
+    elab_func (genv_of M) (genvl M) fn = EOk tf /\ lower_func (m_structs M) (glnames M) tf = LOk F /\
+    tf_body tf = tl ++ [TRet (Some te)] /\ length tl = length l /\ forallb stok tl = true /\ tok te = true /\
+    (forall q, In q (flat_map tflits (body_exprs tl ++ [te])) -> PrimFloat.eqb q q = true) /\
+    Forall (fresh_decl (glnames M) (argnames fn)) l /\ (forall x, In x (map snd (f_args fn)) -> ~ In x (glnames M)).
+Proof. exact straight_in_fragment_sound. Qed.
+
+(** non-vacuity of (4), and its composition with C02: int g; f(int a, float b) -> float
+    { int x = a + 2; float y; y = x * b; g = g + x; a = a - 1; return y + g / 1.5 - a; }  at a = 3, b = 2.5, g = 8;
+    the lowered function is inside the fragment of the forwarding theorem, and the optimised function returns the same *)
+Example C01_straight_line_example :
+  fwd_fragment_b sl_F = true /\
+  run 60 {| p_funcs := [sl_F]; p_globals := ["g"%string] |} sl_F 0 (call_frame sl_ws (init_regs sl_F)) sl_vs =
+  run 60 {| p_funcs := [sl_F]; p_globals := ["g"%string] |} (opt_load_after_store sl_F) 0 (call_frame sl_ws (init_regs sl_F)) sl_vs.
+Proof. split; vm_compute; reflexivity. Qed.
+Example C01_straight_line_instance : forall P,
+  exists v vs', fst (match exec_list sl_M 12 (f_body sl_fn) (call_state sl_fn sl_ws sl_g) with ROk p => p | _ => (ONormal, call_state sl_fn sl_ws sl_g) end) = OReturn (SV v) /\
+                exists n, forall fuel', n <= fuel' -> run fuel' P sl_F 0 (call_frame sl_ws (init_regs sl_F)) sl_vs = Done (v_of v) vs'.
+Proof. exact sl_conclusion. Qed.
+
 (** non-vacuity: 7 / 2 and -7 / 2 truncate; mixed arithmetic promotes; % on non-negative operands *)
 Example C01_examples :
   eval_binop ODiv (RInt 7) (RInt 2) = ROk (RInt 3) /\ eval_binop ODiv (RInt (-7)) (RInt 2) = ROk (RInt (-3)) /\
@@ -90,4 +142,5 @@ Proof. vm_compute. repeat split; reflexivity. Qed.
 Eval compute in "ASSUMPTIONS C01_operators_agree_partial"%string. Print Assumptions C01_operators_agree_partial.
 Eval compute in "ASSUMPTIONS C01_selected_arm_is_source_arm_partial"%string. Print Assumptions C01_selected_arm_is_source_arm_partial.
 Eval compute in "ASSUMPTIONS C01_return_expression_functions_partial"%string. Print Assumptions C01_return_expression_functions_partial.
+Eval compute in "ASSUMPTIONS C01_straight_line_functions_partial"%string. Print Assumptions C01_straight_line_functions_partial.
 Eval compute in "END"%string.
